@@ -116,6 +116,8 @@ type FnCtx struct {
 	resultStack [][]*types.Var
 	noDecreases map[int]bool
 	mapRangeLoops int
+	inlineStack   []string
+	keepRet       bool
 	pathsToReturn int
 	yieldElem string
 	yieldPair bool
